@@ -44,9 +44,9 @@ class LDMMaintenanceThread(LDMMaintenance):
 
         return provider_data
 
-    def update_provider_data(self, data_object_id: int, data_object: dict) -> None:
+    def update_provider_data(self, data_object_id: int, data_object: dict) -> int | None:
         with self.data_containers_lock:
-            super().update_provider_data(data_object_id, data_object)
+            return super().update_provider_data(data_object_id, data_object)
 
     def del_provider_data(self, data_object: dict) -> None:
         with self.data_containers_lock:
